@@ -329,7 +329,7 @@ def install(E):
             out.append(Ref(base.cell, base.path + (('field', i),)) if base is not None else Ref(E.alloc(x)))
         return out
 
-    @reg_re(E, r'^(core::slice::<impl \[.*\]>|core::array::<impl \[.*\]>|Vec)::(iter|iter_mut)$')
+    @reg_re(E, r'^(core::slice::<impl \[.*\]>|core::slice|core::array::<impl \[.*\]>|core::array|Vec)::(iter|iter_mut)$')
     def seq_iter(E, a, ctx):
         v, base = seq_items(E, a[0])
         return Agg('SeqIter', [elem_refs(E, v, base), 0, True])
@@ -390,7 +390,7 @@ def install(E):
     def it_count(E, a, ctx):
         return BV(len(iter_source(E, a[0])))
 
-    @reg_re(E, r'^(core::slice::<impl \[.*\]>|Vec)::contains$')
+    @reg_re(E, r'^(core::slice::<impl \[.*\]>|core::slice|Vec)::contains$')
     def seq_contains(E, a, ctx):
         v, base = seq_items(E, a[0])
         needle = _ld(E, a[1])
@@ -403,14 +403,19 @@ def install(E):
                 return z3.BoolVal(True)
         return z3.BoolVal(False)
 
-    @reg_re(E, r'^(core::slice::<impl \[.*\]>|Vec)::(len|is_empty)$')
+    @reg_re(E, r'^(core::slice::<impl \[.*\]>|core::slice|Vec)::(len|is_empty)$')
     def seq_len(E, a, ctx):
+        from .bytesm import Buf, Rope, VTerm, blen
+        v0 = E.load(a[0]) if isinstance(a[0], Ref) else a[0]
+        if isinstance(v0, (Buf, Rope, VTerm)):
+            n = blen(E, v0)
+            return (n == 0) if ctx.callee.endswith('is_empty') else n
         v, base = seq_items(E, a[0])
         if ctx.callee.endswith('is_empty'):
             return z3.BoolVal(len(v.fields) == 0)
         return BV(len(v.fields))
 
-    @reg_re(E, r'^(core::slice::<impl \[.*\]>|Vec)::(first|last)$')
+    @reg_re(E, r'^(core::slice::<impl \[.*\]>|core::slice|Vec)::(first|last)$')
     def seq_first(E, a, ctx):
         v, base = seq_items(E, a[0])
         if not v.fields:
